@@ -206,6 +206,9 @@ structure State where
   agDeadlineFired : Bool := false
   graceFired : Bool := false
   killQueue : List String := []       -- Kill goroutines started by shutdownAgents that have not run yet
+  restoreWaiting : Bool := false      -- HandleRestore waits for the runtime-ready gate or the hook deadline
+  restoreUserType : String := ""      -- error type of the runtime's restore/init error report
+  credKey : Option String := none     -- credentials service: the access key served for the instance token
   shutFrom : Nat := 0                 -- who asked for the running reset/shutdown
   awaitingExit : List String := []    -- agentsAwaitingExit keys
   watcherStarted : Bool := false
